@@ -167,7 +167,7 @@ const (
 )
 
 //verif:entry HarnessCommitPerTarget unwind=8 timers=lazy preempt=2 reach=single,multi,none stub=github.com/AliceO2Group/Control/common/utils.TimeTrack
-//verif:thorough HarnessCommitPerTarget preempt=3
+//verif:thorough HarnessCommitPerTarget preempt=2 paths=1500000
 func HarnessCommitPerTarget() {
 	names := []string{"a", "b", "c"}
 	n := vrt.IntRange("targets", 0, 2+vrt.Tier())
